@@ -96,8 +96,12 @@ func boundaries() map[int64][]int64 {
 // n·w after the first emission of the case: the ticker was created later than
 // that), so that a limiter cutting windows too often is not excused.
 func lateTicksExplain(q int, w time.Duration, cnt, a, b, firstTB int64) (bool, string) {
+	return lateTicksExplainWith(boundaries(), q, w, cnt, a, b, firstTB)
+}
+
+func lateTicksExplainWith(bs map[int64][]int64, q int, w time.Duration, cnt, a, b, firstTB int64) (bool, string) {
 	best := ""
-	for g, ts := range boundaries() {
+	for g, ts := range bs {
 		legal := true
 		in := int64(0)
 		for n, t := range ts {
@@ -107,6 +111,12 @@ func lateTicksExplain(q int, w time.Duration, cnt, a, b, firstTB int64) (bool, s
 			if t > a && t <= b {
 				in++
 			}
+		}
+		// a ticker delivers at most one tick per period plus one that was waiting in its channel: the boundaries
+		// processed inside a span of length L are at most ⌊L/w⌋+2 (one more is granted for a timestamp taken
+		// late) - a time base that replays overdue ticks back to back is not excused
+		if in > (b-a)/int64(w)+3 {
+			legal = false
 		}
 		if legal && int64(q)*(in+2) >= cnt {
 			var rel []string
